@@ -32,7 +32,7 @@ func depWholeInput(r *engine.Run, rule string) {
 		r.Anchor(rule, fmt.Errorf("unresolved anchor: RawHash has %d parameters", len(f.Params)))
 		return
 	}
-	data := f.Params[0]
+	var data ssa.Value = f.Params[0]
 	asserted := func(v ssa.Value) bool {
 		switch x := v.(type) {
 		case *ssa.TypeAssert:
@@ -113,6 +113,36 @@ func depWholeInput(r *engine.Run, rule string) {
 			}
 		}
 		return false, "not a view of the whole argument"
+	}
+	// the type switch may live in a helper that is handed the argument and returns the bytes:
+	// its returns are judged with its parameter standing for the argument
+	inner := whole
+	whole = func(v ssa.Value, depth int) (bool, string) {
+		if c, ok := v.(*ssa.Call); ok {
+			if h := c.Call.StaticCallee(); h != nil && h.Pkg == f.Pkg && len(h.Blocks) > 0 && depth < 2 {
+				for i, a := range c.Call.Args {
+					if a == ssa.Value(data) && i < len(h.Params) {
+						r.Touch(h)
+						saved := data
+						data = h.Params[i]
+						res, why := true, ""
+						for _, ret := range engine.Returns(h) {
+							if len(ret.Results) != 1 {
+								res, why = false, "helper with several results"
+								break
+							}
+							if ok2, w := inner(resultValue(ret, 0), depth+1); !ok2 {
+								res, why = false, w+" (in "+fn(h)+")"
+								break
+							}
+						}
+						data = saved
+						return res, why
+					}
+				}
+			}
+		}
+		return inner(v, depth)
 	}
 	n := 0
 	o := ord{}
@@ -430,22 +460,39 @@ func orderJoined(r *engine.Run, rule string) {
 			writes := false
 			var dones []ssa.Instruction
 			deferred := false
+			var writesState func(g *ssa.Function, depth int) bool
+			writesState = func(g *ssa.Function, depth int) bool {
+				w := false
+				engine.Instrs(g, func(in ssa.Instruction) {
+					switch x := in.(type) {
+					case *ssa.Store:
+						if _, local := engine.AddrRoot(x.Addr).(*ssa.Alloc); !local {
+							w = true
+						}
+					case *ssa.MapUpdate:
+						w = true
+					case *ssa.Call:
+						if b, ok := x.Call.Value.(*ssa.Builtin); ok && b.Name() == "delete" {
+							w = true
+						}
+						// the bookkeeping may live in a trie method the goroutine calls
+						if h := x.Call.StaticCallee(); h != nil && depth < 1 && h.Pkg == f.Pkg && len(h.Blocks) > 0 && h.Signature.Recv() != nil {
+							if writesState(h, depth+1) {
+								w = true
+							}
+						}
+					}
+				})
+				return w
+			}
+			writes = writesState(body, 0)
 			engine.Instrs(body, func(in ssa.Instruction) {
 				switch x := in.(type) {
-				case *ssa.Store:
-					if _, local := engine.AddrRoot(x.Addr).(*ssa.Alloc); !local {
-						writes = true
-					}
-				case *ssa.MapUpdate:
-					writes = true
 				case *ssa.Defer:
 					if extCalleeIs(x, "sync", "WaitGroup", "Done") {
 						deferred = true
 					}
 				case *ssa.Call:
-					if b, ok := x.Call.Value.(*ssa.Builtin); ok && b.Name() == "delete" {
-						writes = true
-					}
 					if extCalleeIs(x, "sync", "WaitGroup", "Done") {
 						dones = append(dones, x)
 					}
